@@ -179,36 +179,26 @@ def sbt_base(econ=3, enduse=1, plant=2, shape=(6, 2, 1), config=5) -> OrderedDic
     d['Number of Production Wells'] = '1'
     d['Number of Injection Wells'] = '1'
     d['Production Well Diameter'] = '8.5'
-    d['Injection Well Diameter'] = '8.5'
+    d['Injection Well Diameter'] = '8'
     d['Nonvertical Wellbore Diameter'] = '0.216'
     d['Production Flow Rate per Well'] = '20'
     d['Reservoir Impedance'] = '1E-4'
     d['Multilaterals Cased'] = 'False'
-    d['End-Use Option'] = str(enduse)
-    d['Power Plant Type'] = str(plant)
-    d['Plant Lifetime'] = str(L)
-    d['Time steps per year'] = str(n)
-    d['Construction Years'] = str(cy)
+    # end-use, plant and economics block: the same as the standard family's (so that the closed-loop economics is driven as hard)
+    std = base(econ, enduse, plant, 4, shape)
+    keys = list(std)
+    for k in keys[keys.index('End-Use Option'):]:
+        d[k] = std[k]
     d['Ambient Temperature'] = '3'
     d['Surface Temperature'] = '5'
-    d['Injection Temperature'] = '24'
-    d['Economic Model'] = str(econ)
-    if econ == 1:
-        d['Fixed Charge Rate'] = '0.09'
-    if econ == 2:
-        d['Discount Rate'] = '0.06'
     d['Reservoir Stimulation Capital Cost'] = '0'
     d['Exploration Capital Cost'] = '0'
-    d['Starting Electricity Sale Price'] = '0.19'
-    d['Ending Electricity Sale Price'] = '0.21'
-    d['Starting Heat Sale Price'] = '0.03'
-    d['Ending Heat Sale Price'] = '0.05'
     d['SBT Generate Wireframe Graphics'] = 'False'
     d['Print Output to Console'] = '0'
     return d
 
 
-SBT_PAIRS = ((1, 1), (1, 2), (2, 9), (31, 1), (42, 2), (52, 1))
+SBT_PAIRS = ((1, 1), (1, 2), (2, 9), (2, 5), (2, 6), (2, 7), (31, 1), (41, 4), (42, 2), (51, 3), (52, 1))
 
 
 def sbt_grid(econs=ECON_MODELS, pairs=SBT_PAIRS, configs=(1, 5), shapes=((6, 2, 1),)):
